@@ -22,7 +22,7 @@ import (
 const prop = "C12"
 
 var machine = pbt.Part[subrig.History]{
-	Name: "machine", Quick: 240000, Thorough: 4000000,
+	Name: "machine", Quick: 240000, Thorough: 3200000,
 	Gen:   func(t *rapid.T) subrig.History { return subrig.Gen(t, subrig.BiasC12, pbt.IsKnown) },
 	Check: func(h subrig.History, o *pbt.Rec) pbt.Verdict { return subrig.Check(prop, h, o) },
 }
@@ -54,7 +54,7 @@ func TestProp(t *testing.T) {
 	m := machine
 	if os.Getenv("VERIF_RACE") != "" {
 		// the -race build of the thorough tier runs the same machine about ten times slower
-		m.Quick, m.Thorough = m.Quick/12, m.Thorough/12
+		m.Quick, m.Thorough = m.Quick/16, m.Thorough/16
 	}
 	m.Run(r)
 	if n := subrig.Expiries.Load(); n > 3 {
